@@ -274,3 +274,73 @@ Qed.
 
 Theorem register_case_irrelevant x x' r : map lower x = map lower x' -> str_eqb_ci x r = str_eqb_ci x' r.
 Proof. exact (str_eqb_ci_case x x' r). Qed.
+
+(* ------------------------------------------------------------------------------------------ *)
+(* a macro invocation assembles to exactly what its expanded statements assemble to, one after the other *)
+
+(* how one macro variant answers an operand list (the expression used by assemble_stmt) *)
+Definition mv_match (regs : list str) (operands : list operand) (mv : mvariant) : option (list matched) + unit :=
+  match mv_parser mv with
+  | Some pp => match find_matching regs pp operands with
+               | MOk m => inl (Some (ms_ops m))
+               | MNo => inl None
+               | MAbort => inr tt
+               end
+  | None => match operands with [] => inl (Some []) | _ => inl None end
+  end.
+
+(* the expansion: every step's operand templates with the placeholders replaced by what the invocation matched *)
+Fixpoint expand (ms : list matched) (steps : list step) : option (list (str * list operand)) :=
+  match steps with
+  | [] => Some []
+  | s :: more =>
+      match subst_operands ms (st_operands s), expand ms more with
+      | Some ops, Some r => Some ((st_mnemonic s, ops) :: r)
+      | _, _ => None
+      end
+  end.
+
+(* statements assembled one after the other *)
+Fixpoint assemble_seq (f : nat) (regs : list str) (i : isa) (stmts : list (str * list operand)) : result (list (list ipart)) :=
+  match stmts with
+  | [] => Ok []
+  | (m, ops) :: r => do a <- assemble_stmt f regs i m ops; do b <- assemble_seq f regs i r; Ok (a ++ b)
+  end.
+
+Theorem macro_is_its_expansion f regs i mn operands skipped mv later ms stmts :
+  isa_get i (map lower mn) = Some (EMacro (skipped ++ mv :: later)) ->
+  Forall (fun v => mv_match regs operands v = inl None) skipped ->       (* earlier variants do not accept the operands *)
+  mv_match regs operands mv = inl (Some ms) ->                           (* this one does *)
+  expand ms (mv_steps mv) = Some stmts ->                                (* and all its placeholders can be filled *)
+  assemble_stmt (S f) regs i mn operands = assemble_seq f regs i stmts.
+Proof.
+  intros Hi Hskip Hm He. cbn [assemble_stmt]. rewrite Hi. clear Hi.
+  induction skipped as [|v sk IH].
+  - cbn [app]. unfold mv_match in Hm. rewrite Hm. clear Hm Hskip.
+    revert stmts He. induction (mv_steps mv) as [|s more IHs]; intros stmts He; cbn [expand] in He.
+    + inversion He; subst. reflexivity.
+    + destruct (subst_operands ms (st_operands s)) as [ops|]; [|discriminate].
+      destruct (expand ms more) as [r|] eqn:Er; [|discriminate]. inversion He; subst.
+      cbn [assemble_seq]. rewrite (IHs r eq_refl). reflexivity.
+  - inversion Hskip as [|? ? Hv Hrest]; subst. cbn [app]. unfold mv_match in Hv. rewrite Hv. apply IH; assumption.
+Qed.
+
+(* ... and when a placeholder of some step cannot be filled, the invocation is not assembled *)
+Theorem macro_unfillable_not_ok f regs i mn operands skipped mv later ms :
+  isa_get i (map lower mn) = Some (EMacro (skipped ++ mv :: later)) ->
+  Forall (fun v => mv_match regs operands v = inl None) skipped ->
+  mv_match regs operands mv = inl (Some ms) ->
+  expand ms (mv_steps mv) = None ->
+  forall r, assemble_stmt (S f) regs i mn operands <> Ok r.
+Proof.
+  intros Hi Hskip Hm He r. cbn [assemble_stmt]. rewrite Hi. clear Hi.
+  induction skipped as [|v sk IH].
+  - cbn [app]. unfold mv_match in Hm. rewrite Hm. clear Hm Hskip.
+    revert r He. induction (mv_steps mv) as [|s more IHs]; intros r He; cbn [expand] in He; [discriminate|].
+    destruct (subst_operands ms (st_operands s)) as [ops|]; [|discriminate].
+    destruct (expand ms more) as [x|] eqn:Er; [discriminate|].
+    destruct (assemble_stmt f regs i (st_mnemonic s) ops) as [a| |]; cbn [bind]; try discriminate.
+    match goal with |- context [bind ?x _] => destruct x as [b| |] eqn:Eb end; cbn [bind]; try discriminate.
+    exfalso. exact (IHs b eq_refl eq_refl).
+  - inversion Hskip as [|? ? Hv Hrest]; subst. cbn [app]. unfold mv_match in Hv. rewrite Hv. apply IH; assumption.
+Qed.
